@@ -43,6 +43,25 @@ ADD = {
  "C17": "; coordinated size pairs across two chunks, sizes +-65536 on 64 KiB / 128 KiB chunks, a chunk whose payload is exactly 65536 bytes longer than declared, second-stage framing of chained filters",
  "C18": "; filter IDs that fold onto 0x21 under truncation or group-folding, LZMA2 -> other-filter chains (incl. on empty blocks), a later block header with the same CRC32 as the previous one but another filter (CRC32 forged), 5 000 blocks followed by padding / a second stream, every source call failing once with each of four error kinds",
 }
+ADD2 = {
+ "C02": "; more than 64 MiB in one dictionary with a stored chunk straddling the 2^26 mark",
+ "C03": "; a 65536-byte compressed chunk inside a block; runs of blocks that agree in one index field and differ in the other; a dictionary-reset LZMA chunk in mid-block",
+ "C04": "; sources and sinks that run another encoder on every call (3 x 3 encoders, re-entrancy)",
+ "C05": "; the tail of an adversarially trained end marker of 18 input bytes (longest symbol reachable; look-ahead limit 20) under every chunking; one write_vectored call for every pair of cut points of the inputs up to 48 bytes; every Stream call of the graphs runs under a 60 s watchdog",
+ "C06": "; index records given a neighbouring record's value; bases whose blocks have equal unpadded sizes and different content sizes",
+ "C07": "; 0..2-byte payloads with a provided size followed by other bytes; every Stream call of the graphs under the 60 s watchdog (a call that does not return is a VIOLATION with its op list)",
+ "C09": "; dictionaries of 4 MiB + 1 and 5 000 000 (12 345 678) bytes with copies just beyond them",
+ "C10": "; streams whose last copy overshoots the declared size, limits between declared and produced",
+ "C11": "; payloads of 5, 9 and 20 KB of input with 64-byte trailers; readers cut exactly at the end of an .xz stream",
+ "C12": "; fault-free targets with reference output for windows of 1.5 MiB, 1 MiB + 1 and 3 000 000 bytes",
+ "C13": "; 4..64 trailing null bytes after an .xz file and the file repeated after them",
+ "C14": "; an ill-formed stream whose first copy reaches before its own start, after streams that filled the window; graph edges under the watchdog",
+ "C15": "; the 18-byte adversarial end marker's tail under every chunking",
+ "C16": "; 0..2-byte payloads whose size is reached inside the bytes buffered with the header",
+ "C18": "; reserved block-flag bits in block headers of every size class up to 1024 bytes; filter ID 0x00",
+}
+for k_, v_ in ADD2.items():
+    ADD[k_] = ADD[k_] + v_
 for k_, v_ in ADD.items():
     lv, te, tx, no, rf = C[k_]
     C[k_] = (lv, te, tx + v_, no, rf)
